@@ -1,7 +1,7 @@
 """The standard check: proofs (lake build + axiom audit) + correspondence (impl vs model on op files)
 + an independent oracle over the implementation's observations + search/shrink + verdict."""
 import hashlib, json, os, re, shutil, time
-from . import lib
+from . import lib, kernel
 from .lib import CheckError
 
 
@@ -87,21 +87,43 @@ def run(cfg, tier, seed):
     prop_path = os.path.join(lib.LEAN, cfg.prop_module.replace(".", "/") + ".lean")
     names, n_examples = lib.theorems_of(prop_path)
     obligations = len(names) + n_examples
-    ok, log, dt = lib.lean_build([cfg.prop_module] + list(cfg.lean_targets or []), cfg.prop_module)
+    extra_mods = kernel.extra_modules(cfg.prop)
+    extra_names = []
+    with lib.Lock("gen"):      # regenerate-and-build is one step: a concurrent run must not swap the Gen files in between
+        translator_problems = kernel.pre_build(cfg.prop)
+        ok, log, dt = lib.lean_build([cfg.prop_module] + list(cfg.lean_targets or []), cfg.prop_module)
+        ok_extra, log_extra = True, ""
+        if extra_mods:      # built apart: a broken regenerated obligation must not take the model driver away from the search
+            ok_extra, log_extra, dt2 = lib.lean_build(extra_mods, cfg.prop_module)
+            dt += dt2
+    for m in extra_mods:
+        ns_, ex_ = lib.theorems_of(os.path.join(lib.LEAN, m.replace(".", "/") + ".lean"))
+        extra_names += ns_; n_examples += ex_
+    obligations += len(extra_names)
     cov["lean_build_s"] = round(dt, 1)
+    cov["regenerated_obligations"] = {"modules": extra_mods, "theorems": extra_names, "translator_problems": translator_problems}
     proof_broken = None
     discharged = 0
     axioms = {}
-    if not ok:
+    if translator_problems:
+        proof_broken = "translator failed: " + "; ".join(translator_problems)
+    elif not ok:
         m = re.search(r"error: ([^\n]*)", log)
         proof_broken = "lake build failed: " + (m.group(1) if m else log[-500:])
-    else:
-        roots = [cfg.prop_module] + [lib.exe_root(t) for t in (cfg.lean_targets or [])]
+    if ok and not ok_extra and not proof_broken:
+        m = re.search(r"error: ([^\n]*)", log_extra)
+        proof_broken = "regenerated obligation no longer checks (%s): %s" % (
+            ",".join(extra_mods), m.group(1) if m else log_extra[-500:])
+    if ok and ok_extra and not translator_problems:
+        roots = [cfg.prop_module] + extra_mods + [lib.exe_root(t) for t in (cfg.lean_targets or [])]
         bad = lib.forbidden_tokens([r for r in roots if r])
         cov["lean_files_audited"] = [os.path.relpath(p, lib.LEAN) for p in lib.import_closure([r for r in roots if r])]
         if bad:
             proof_broken = "forbidden tokens in Lean sources: " + "; ".join(bad[:5])
         axioms, n_ex2, problems = lib.lean_audit(cfg.prop_module)
+        for m in extra_mods:
+            ax2, _, pr2 = lib.lean_audit(m)
+            axioms.update(ax2); problems += pr2
         if problems:
             proof_broken = "axiom audit: " + "; ".join(problems[:5])
         if not proof_broken:
@@ -114,11 +136,11 @@ def run(cfg, tier, seed):
     used_axioms = sorted({a for v in axioms.values() for a in v})
     cov.update({
         "obligations": obligations, "discharged": discharged,
-        "theorems": names, "examples": n_examples,
+        "theorems": names + extra_names, "examples": n_examples,
         "checker_cmd": "cd /verif/lean && lake build %s && lake env lean <generated #print axioms audit>%s" % (
             cfg.prop_module, " && lake env leanchecker " + cfg.prop_module if tier == "thorough" else ""),
         "trusted_base": ["Lean 4.33.0 kernel", "axioms used by the theorems: %s" % (used_axioms or "none")]
-                        + list(cfg.trusted_base),
+                        + list(cfg.trusted_base) + kernel.trusted(cfg.prop),
         "axioms_by_theorem": axioms,
     })
 
